@@ -1013,6 +1013,10 @@ class Compiler:
 
         internals = COMPILER_INTERNALS_OR_DISALLOWED | set(self.defaults)
 
+        # The current target language is a local of the render function
+        # (set by i18n:target); it must not be looked up in the context.
+        internals.add('target_language')
+
         transform = NameTransform(
             self.global_builtins | set(builtins),
             ListDictProxy(self._aliases),
